@@ -689,6 +689,20 @@ class Program:
             self._trait_impls = m
         return self._trait_impls
 
+    def inlined(self, fn, depth=2, accept=None):
+        """`fn` with its local synchronous helpers spliced in (rules/lib/inline.py); cached"""
+        from . import inline as _inline
+        cache = self.__dict__.setdefault("_inlined", {})
+        if isinstance(accept, str):
+            k = (fn.key, depth, accept)
+            if k not in cache:
+                cache[k] = _inline.inline(self, fn, depth, _inline.containing(self, accept))
+            return cache[k]
+        k = (fn.key, depth, id(accept))
+        if k not in cache:
+            cache[k] = _inline.inline(self, fn, depth, accept)
+        return cache[k]
+
     def callers(self):
         if self._callers is None:
             m = defaultdict(list)
